@@ -1,5 +1,6 @@
 SPECIFICATION Spec
 CONSTANTS
+  Aliasing = TRUE
   MaxSeqs = 4
   MaxLen = 2
   MaxGapCols = 1
@@ -8,4 +9,5 @@ INVARIANT InvGroups
 INVARIANT InvPartition
 INVARIANT InvReplay
 INVARIANT InvFinal
+INVARIANT InvObjects
 CHECK_DEADLOCK FALSE
